@@ -252,6 +252,31 @@ def run(tier, seed):
                 elif b1 != 1 or b2 != 0:
                     rep.violation("C04:equivalent-presentation-not-a-hit", "body executions %d then %d for two presentations of one binding" % (b1, b2),
                                   {"first": metas[-2], "second": metas[-1]})
+                # the batch presentation of the same binding under the same context arguments is a hit; under
+                # other context arguments it is a different key (one execution, then a hit)
+                if rng.random() < 0.5 and all(isinstance(k, str) for k in binding):
+                    bf = f.with_context_args(ctx) if ctx is not None else f
+                    ctx2 = dict(ctx or {}, zz=len(metas))
+                    bf2 = f.with_context_args(ctx2)
+                    try:
+                        tr.clear()
+                        bf.call_batch([dict(binding)])
+                        n_same = len([e for e in tr.events if e[0] == "body"])
+                        tr.clear()
+                        bf2.call_batch([dict(binding)])
+                        n_other = len([e for e in tr.events if e[0] == "body"])
+                        tr.clear()
+                        bf2(**binding)
+                        n_other_again = len([e for e in tr.events if e[0] == "body"])
+                        npairs["batch"] = npairs.get("batch", 0) + 1
+                        if n_same != 0:
+                            rep.violation("C04:batch-presentation-not-a-hit", "call_batch of an already memoized binding under the same context arguments executed the body %d times" % n_same,
+                                          {"first": metas[-2], "ctx": repr(ctx)})
+                        if n_other != 1 or n_other_again != 0:
+                            rep.violation("C04:batch-key-ignores-context-args", "call_batch under other context arguments executed the body %d times, the equivalent single call then %d times (expected 1 then 0)" % (n_other, n_other_again),
+                                          {"first": metas[-2], "ctx": repr(ctx), "other_ctx": repr(ctx2)})
+                    except Exception as e:
+                        rep.violation("C04:batch-presentation-raised", "%s: %s" % (type(e).__name__, str(e)[:150]), {"first": metas[-2]})
                 # minimally different binding: must be a different key
                 if binding:
                     p = rng.choice(list(binding))
